@@ -271,49 +271,80 @@ Section Weights.
           (seq 0 n_datasets).
 
     Definition svc_cfg : Type := (list (list T) * (Z -> Z -> Z -> Rec))%type.
-    Definition svc_state : Type := (list (list T) * list (list Rec))%type.
 
-    (* __init__ and change_shg_mgr both (re-)create the two stored things from the
-       manager's current sources (kernels k_init_weights, k_chg_weights, k_chg_recarrays) *)
-    Definition svc_make (J G : nat) (cfg : svc_cfg) : svc_state :=
-      (fst cfg, create_recarrays (snd cfg) J G).
+    (* what the object stores: _src_weight_array_list, _src_recarray_list_list, _a_jk *)
+    Record svc_state : Type := {
+      st_W : list (list T);
+      st_recs : list (list Rec);
+      st_ajk : option (list (list T))
+    }.
+
+    (* __init__: the two arrays are created from the manager's current sources, _a_jk = None *)
+    Definition svc_init (J G : nat) (cfg : svc_cfg) : svc_state :=
+      {| st_W := fst cfg; st_recs := create_recarrays (snd cfg) J G; st_ajk := None |}.
+
+    (* change_shg_mgr, statement by statement on the OLD state:
+         self._src_recarray_list_list = create_src_recarray_list_list(...)     (k_chg_recarrays)
+         self._src_weight_array_list = create_src_weight_array_list(...)       (k_chg_weights)
+       nothing else is touched: _a_jk keeps the table of the last calculate *)
+    Definition set_recs (st : svc_state) (r : list (list Rec)) : svc_state :=
+      {| st_W := st_W st; st_recs := r; st_ajk := st_ajk st |}.
+    Definition set_W (st : svc_state) (w : list (list T)) : svc_state :=
+      {| st_W := w; st_recs := st_recs st; st_ajk := st_ajk st |}.
     Definition svc_change_to (J G : nat) (old : svc_state) (cfg : svc_cfg) : svc_state :=
-      svc_make J G cfg.
+      set_W (set_recs old (create_recarrays (snd cfg) J G)) (fst cfg).
     Definition svc_after (J G : nat) (cfg0 : svc_cfg) (changes : list svc_cfg) : svc_state :=
-      fold_left (svc_change_to J G) changes (svc_make J G cfg0).
+      fold_left (svc_change_to J G) changes (svc_init J G cfg0).
 
-    (* calculate, group shg_idx: for ds_idx: src_recarray = stored[ds_idx][shg_idx];
-       Yg = arr[ds_idx, shg_idx](src_recarray) *)
-    Definition ycol_of (yield_call : Z -> Z -> Rec -> list T) (recs : list (list Rec))
-               (n_datasets : nat) (g : nat) : res (list (list T)) :=
+    (* get_weights returns whatever the last calculate stored *)
+    Definition svc_get_weights (st : svc_state) : option (list (list T)) := st_ajk st.
+
+    (* calculate, group shg_idx (slice sl of the sources): for ds_idx:
+         src_recarray = stored[ds_idx][shg_idx];
+         Yg = arr[ds_idx, shg_idx](src_recarray, src_params_recarray[shg_src_slice]) *)
+    Definition ycol_of (yield_call : Z -> Z -> Rec -> Z * Z -> list T) (recs : list (list Rec))
+               (n_datasets : nat) (g : nat) (sl : Z * Z) : res (list (list T)) :=
       mapM (fun j => do row <- py_get recs (k_calc_rec_ds_idx0 (Z.of_nat j));
                      do rec <- py_get row (k_calc_rec_shg_idx0 (Z.of_nat g));
-                     Ok (yield_call (Z.of_nat j) (Z.of_nat g) rec))
+                     Ok (yield_call (Z.of_nat j) (Z.of_nat g) rec sl))
            (seq 0 n_datasets).
 
+    (* the slice of the source parameters group g is evaluated with *)
+    Definition param_slices (W : list (list T)) : list (Z * Z) := slices (map zlen W).
+
     (* the (W_g, [Y_g for every dataset]) groups a freshly built service would see for cfg:
-       cell (j, g) = arr[j, g] applied to the record array arr[j][g] builds from group g's sources *)
-    Definition svc_groups (J : nat) (cfg : svc_cfg) (yield_call : Z -> Z -> Rec -> list T)
+       cell (j, g) = arr[j, g] applied to the record array arr[j][g] builds from group g's sources
+       and to group g's slice of the source parameters *)
+    Definition svc_groups (J : nat) (cfg : svc_cfg) (yield_call : Z -> Z -> Rec -> Z * Z -> list T)
       : list (list T * list (list T)) :=
       combine (fst cfg)
-              (map (fun g => map (fun j => yield_call (Z.of_nat j) (Z.of_nat g)
-                                              (snd cfg (Z.of_nat j) (Z.of_nat g) (Z.of_nat g)))
-                                 (seq 0 J))
-                   (seq 0 (length (fst cfg)))).
+              (map (fun gs => map (fun j => yield_call (Z.of_nat j) (Z.of_nat (fst gs))
+                                               (snd cfg (Z.of_nat j) (Z.of_nat (fst gs)) (Z.of_nat (fst gs)))
+                                               (snd gs))
+                                  (seq 0 J))
+                   (combine (seq 0 (length (fst cfg))) (param_slices (fst cfg)))).
 
-    Definition svc_calculate (J : nat) (st : svc_state) (yield_call : Z -> Z -> Rec -> list T)
-      : res (list (list T)) :=
-      do Y <- mapM (ycol_of yield_call (snd st) J) (seq 0 (length (fst st)));
-      a_jk_calc J (combine (fst st) Y).
+    Definition svc_calculate (J : nat) (st : svc_state)
+               (yield_call : Z -> Z -> Rec -> Z * Z -> list T) : res (list (list T)) :=
+      do Y <- mapM (fun gs => ycol_of yield_call (st_recs st) J (fst gs) (snd gs))
+                   (combine (seq 0 (length (st_W st))) (param_slices (st_W st)));
+      a_jk_calc J (combine (st_W st) Y).
+
+    (* calculate as a state transformer: the table is stored *)
+    Definition svc_calculate_st (J : nat) (st : svc_state)
+               (yield_call : Z -> Z -> Rec -> Z * Z -> list T) : res svc_state :=
+      do a <- svc_calculate J st yield_call;
+      Ok {| st_W := st_W st; st_recs := st_recs st; st_ajk := Some a |}.
 
     Definition weights_eval_svc (J : nat) (cfg0 : svc_cfg) (changes : list svc_cfg)
-               (yield_call : Z -> Z -> Rec -> list T) : res (list (list T) * list T) :=
+               (yield_call : Z -> Z -> Rec -> Z * Z -> list T) : res (list (list T) * list T) :=
       do a <- svc_calculate J (svc_after J (length (fst (last changes cfg0))) cfg0 changes) yield_call;
       Ok (a, f_j a).
 
-    (* MultiDatasetTCLLHRatio.evaluate on the long-lived objects *)
+    (* MultiDatasetTCLLHRatio.evaluate on the long-lived objects: both services are
+       recalculated on every call, unconditionally (kernels k_eval_ifs, k_eval_ncalc_a, k_eval_ncalc_f) *)
     Definition multi_eval_svc (opa ns : T) (J : nat) (st : svc_state)
-               (yield_call : Z -> Z -> Rec -> list T) (ds : list dset) : res T :=
+               (yield_call : Z -> Z -> Rec -> Z * Z -> list T) (ds : list dset) : res T :=
       if negb (Nat.eqb (length ds) J) then Err ValueError else
       do a <- svc_calculate J st yield_call;
       multi_loop opa ns a (f_j a) 0 ds (k_ll_init Nm).
